@@ -890,7 +890,7 @@ def check(ctx):
     crashed += cr
     for i in cr:
         fs = failed_spellings(outs[i])
-        gl = ["no_label_chain"] if fs and all(chain_py(cases[i], k) for k in fs) else []
+        gl = []          # no guard is left: every class is decided (the name-collision class was repaired by D84)
         if gl:
             guard_viol[i] = gl
     ie = [i for i in ie if i not in cr]
@@ -901,13 +901,13 @@ def check(ctx):
     for j, bad_sp in b.items():
         i = ie[j]
         bad_spec.append(i); bad_impl.append(i)
-        gl = ["no_label_chain"] if all((j, k) in chain for k in bad_sp) else []
+        gl = []          # no guard is left (D84)
         if gl:
             guard_viol[i] = gl
     n_eval = sum(len(B_POINTS[sp.get("layout", "pair")]) + 2 for i in ie for sp in cases[i]["spellings"])
     lay = {l: sum(1 for i in ie for sp in cases[i]["spellings"] if sp.get("layout", "pair") == l) for l in B_POINTS}
     ctx.note(f"expr: {len(ie)} expressions x 3 spellings, layouts {lay}, {n_eval} evaluations (2 direct + 2..4 generated-code per spelling); "
-             f"mismatching cases {len(b)}, raised {len(cr)}; violating a guard: {sum(1 for i in guard_viol if cases[i]['kind'] == 'expr')} "
+             f"mismatching cases {len(b)}, raised {len(cr)}; multi-source name collisions (a doubly fed input a next to a user a_v1, decided since D84): {len(chain)} spellings "
              f"(repeated/contained sub-expressions, repaired by D80 and deciding: q*B^a + q*B^b in {len(gsh)} expressions, sibling containment per sympy in "
              f"{sum(1 for i in ie + cr if not isinstance(outs[i], dict) and any(x.get('sib') for x in outs[i]))})")
     # --- lhs
